@@ -7,7 +7,7 @@ from ..vm import Prog, expect_ok
 
 ID = "C15"
 LEVEL = "exploration"
-BUDGET = {"quick": 3000, "thorough": 300000}
+BUDGET = {"quick": 3000, "thorough": 900000}
 RULE = ("case = 1-6 values (Int full range, finite Float incl. huge/tiny/denormal, String over bytes 1..255 incl. quotes, "
         "backslashes, control characters, '%') written with show (single value) or print_to (sequence with generated "
         "separators, specs %$ / %li / %lf / %s) at a generated start position after a prefix, then read back with look_from / "
